@@ -25,7 +25,7 @@ from sim.seams import SimBudgetExceeded
 from sim.world import World, exception_signature
 
 ENGINE = "clisim"
-FAMILIES = ["assgn", "assgn", "blocks", "csv", "config", "expr", "lenprefix", "random"]
+FAMILIES = ["assgn", "assgn", "blocks", "csv", "config", "expr", "lenprefix", "lines", "lines", "random"]
 
 
 def warm():
